@@ -8,6 +8,7 @@ import TzVerif.Driver.Codec
 import TzVerif.Spec.Calendar
 import TzVerif.Spec.Lookup
 import TzVerif.Spec.Text
+import TzVerif.Spec.TzGrammar
 
 namespace TzVerif.Spec
 open TzVerif.Model TzVerif.Driver TzVerif.Gen
@@ -323,8 +324,18 @@ def noDups {α} [BEq α] : List α → Bool
 
 def showOpt (o : Option DateTime) : String := showOptDt o
 
+/-- F2 (overlapping periods) only excuses the clauses it is known to break: duplicates and what follows
+    from them; F1 (reverse order with tie) excuses every clause that evaluates the rule -/
+def kfTagDup (z : TimeZone) : String := kfTag z
+
+def kfTagF1 (z : TimeZone) : String :=
+  match ruleOf z with
+  | some a => if classReverseTie a then "[KF:rule_reverse_order_with_tie]" else ""
+  | none => ""
+
 def findOracles (z : TimeZone) (y mo d h mi s ns : Int) (rhs : List String) : Verdicts :=
-  let tag := kfTag z
+  let tag := kfTagF1 z
+  let tagDup := kfTagDup z
   match fieldsError y mo d h mi s ns with
   | some e => [("C05.search_refuses_invalid_fields", rhs == [e])]
   | none =>
@@ -344,14 +355,17 @@ def findOracles (z : TimeZone) (y mo d h mi s ns : Int) (rhs : List String) : Ve
       let gapsShape := skipped.all (fun (b, a) => b.unixTime == a.unixTime && b.nanoseconds == ns && a.nanoseconds == ns && dtInv b && dtInv a)
       let accessors : String := s!"U {showOpt (listUnique l)} E {showOpt (listEarliest l)} X {showOpt (listLatest l)}"
       [("C05.valid_results_are_exactly_the_instants" ++ tag, sameMembers implSet spec),
-       ("C05.no_duplicates" ++ tag, noDups implSet),
+       ("C05.no_duplicates" ++ tagDup, noDups implSet),
        ("C05.results_carry_searched_fields", fieldsOk),
        ("C14.search_entries", l.all (fun f => match f with | .normal x => dtInv x | .skipped b a => dtInv b && dtInv a)),
-       ("C06.gaps_reported_exactly" ++ tag, sameMembers implGaps gaps && noDups implGaps && gapsShape),
-       ("C06.ascending_order" ++ tag, nondecreasing (l.map foundInstant)),
+       ("C06.gaps_reported_exactly" ++ tagDup, sameMembers implGaps gaps && noDups implGaps && gapsShape),
+       ("C06.ascending_order" ++ tagDup, nondecreasing (l.map foundInstant)),
        ("C06.unique_earliest_latest", String.intercalate " " rest == accessors),
-       ("C06.unique_iff_single_valid_result" ++ tag,
-          (listUnique l).isSome == (spec.length == 1 && gaps.isEmpty))]
+       ("C06.unique_iff_single_valid_result" ++ tagDup,
+          (listUnique l).isSome == (spec.length == 1 && gaps.isEmpty))] ++
+      (if z.leapSeconds.isEmpty then [] else
+        [("C12.search_reports_the_instant_the_lookup_switches" ++ tag, sameMembers (implGaps.map (·.1)) (gaps.map (·.1))),
+         ("C12.search_and_lookup_agree" ++ tag, sameMembers implSet spec)])
 
 /-- `findn … => <count> <exh> <datalen> B <n entries> U … E … X … ## F <find answer> ## S <n entries after stale search>` -/
 def splitOn3 (toks : List String) : List (List String) :=
@@ -400,7 +414,32 @@ def tzifgenOracles (_v : Nat) (z : TimeZone) (_b : List Nat) (rhs : List String)
 def tzifbadOracles (cls : String) (_b : List Nat) (rhs : String) : Verdicts :=
   [("C08.rejects_" ++ cls, rhs.startsWith "Err")]
 
-def tzfooterOracles (_v : Nat) (_b : List Nat) (_rhs : List String) : Verdicts := []
+def isWs (b : Nat) : Bool := b == 32 || b == 9 || b == 10 || b == 12 || b == 13
+
+def stripWs (s : List Nat) : List Nat := ((s.dropWhile isWs).reverse.dropWhile isWs).reverse
+
+/-- what a version-2/3 footer `\n <b> \n` must decode to: `none` = the file must be rejected,
+    `some r` = accepted with trailing rule `r` -/
+def footerExpected (ext : Bool) (b : List Nat) : Option (Option TransitionRule) :=
+  let footer := [10] ++ b ++ [10]
+  if footer.any (· ≥ 128) then none else    -- no accepted description contains a non-ASCII byte
+  let tz := stripWs footer
+  if tz.head? == some 58 || tz.contains 0 then none
+  else if tz.isEmpty then some none
+  else match tzExpected ext tz with
+    | none => none
+    | some r => some (some r)
+
+def tzfooterOracles (v : Nat) (b : List Nat) (rhs : List String) : Verdicts :=
+  if v != 50 && v != 51 then [] else
+  let e := footerExpected (v == 51) b
+  let implOk := !isErr rhs
+  let utc : LocalTimeType := { utOffset := 0, isDst := false, name := some [85, 84, 67] }
+  [("C09.accepts_exactly_the_grammar", implOk == e.isSome),
+   ("C09.decodes_to_the_denoted_rule",
+      match e with
+      | some r => !implOk || String.intercalate " " rhs == showZone { transitions := [], localTimeTypes := [utc], leapSeconds := [], extraRule := r }
+      | none => true)]
 
 def resolveOracles (_dirs : List (List Nat)) (_files : List (List Nat × List Nat)) (_tz : List Nat) (_rhs : List String) : Verdicts := []
 
